@@ -216,7 +216,7 @@ def _api_chunk(calls):
 ZOO = [
     r"""var s = 'a\x41B\u{1F600}\n\t\v\0\'\\' + "q\x7e\u00e9\"" + 'line\
 cont'; s""",
-    r"""var n = [0x1F, 0b101, 0o17, 1e+5, .5, 1.5e-3, 0.1E2, 9007199254740993, 0XaB, 1e-7, 017]; n""",
+    r"""var n = [0x1F, 0b101, 0o17, 1e+5, .5, 1.5e-3, 0.1E2, 9007199254740993, 0XaB, 1e-7, 0O17]; n""",
     r"""var r = /a[/\]]\/(?:x|A|\x41|\cA)+(?=b)(?<=c)(d)\1{2,3}?/gimsuy; /* block */ // line
 r.source""",
     r"""var o = {a: 1, 'b': 2, 3: 4, get g() { return 1 }, set g(v) { }, f: function () { }}; o.g""",
